@@ -27,7 +27,9 @@ type jOutcome struct {
 
 type jDiscRun struct {
 	ID       int         `json:"id"`
-	Class    string      `json:"class"`    // exact | teardown | few | many | twins | byz
+	Class    string      `json:"class"` // exact | teardown | few | many | twins | byz
+	Pattern  string      `json:"pattern"`
+	ProbeMs  []float64   `json:"probe_ms"` // probe interval of each running member (same order as Running)
 	Late     [][2]uint16 `json:"late"`     // links (from, to) whose messages are held back
 	Teardown bool        `json:"teardown"` // every member stops handling messages for the topic once its Synchronize is through
 	Members  []uint16    `json:"members"`
@@ -111,12 +113,16 @@ func (w *discWorld) broadcast(from uint16, data []byte) {
 	}
 }
 
-func runDiscWhole(r *prng, id int) *jDiscRun {
+func runDiscWhole(r *prng, id int, force string) *jDiscRun {
 	n := 2 + r.intn(5)
 	members := discIDs(r, n, r.chance(1, 5))
 	run := &jDiscRun{ID: id, Members: append([]uint16{}, members...), Fifo: r.chance(2, 3)}
-	class := []string{"exact", "teardown", "teardown", "few", "many", "twins", "twins", "byz", "byz"}[r.intn(9)]
+	class := []string{"exact", "teardown", "teardown", "few", "many", "twins", "twins", "byz", "byz", "probes"}[r.intn(10)]
+	if force != "" {
+		class = "probes"
+	}
 	var late [][2]uint16
+	probes := map[uint16]time.Duration{}
 	perm := append([]uint16{}, members...)
 	for i := len(perm) - 1; i > 0; i-- {
 		j := r.intn(i + 1)
@@ -153,6 +159,36 @@ func runDiscWhole(r *prng, id int) *jDiscRun {
 			run.Expected = 2 + r.intn(k-2)
 			timeout = 300 * time.Millisecond
 		}
+	case "probes":
+		// exact honest run in which the members probe at DIFFERENT intervals (the interval is a parameter of each call):
+		// one fast prober among slow ones or one slow among fast ones, ratio 1:100 or 1:10.  Every member has to tick
+		// again within its own interval whatever it receives meanwhile; the deadline is a dozen slow intervals.
+		k := 2 + r.intn(4)
+		if k > n {
+			k = n
+		}
+		pattern := force
+		if pattern == "" {
+			pattern = []string{"fast-among-slow-100", "slow-among-fast-100", "fast-among-slow-10", "slow-among-fast-10"}[r.intn(4)]
+		}
+		slow, fast := 200*time.Millisecond, 2*time.Millisecond
+		if strings.HasSuffix(pattern, "-10") {
+			slow, fast = 100*time.Millisecond, 10*time.Millisecond
+		}
+		run.Running = perm[:k]
+		run.Expected = k
+		run.Fifo = true
+		odd := r.intn(k)
+		for i, x := range run.Running {
+			isOdd := i == odd
+			if strings.HasPrefix(pattern, "fast-among-slow") == isOdd {
+				probes[x] = fast
+			} else {
+				probes[x] = slow
+			}
+		}
+		run.Pattern = pattern
+		timeout = 12*slow + time.Second
 	case "twins":
 		// four honest members a, b, x, y with x and y of ONE encoding class, everybody expects three; the links y->a,
 		// x->b and x<->y deliver late: for a while a knows {a,b,x} and b knows {a,b,y}.  Nobody may complete with a
@@ -398,6 +434,11 @@ func runDiscWhole(r *prng, id int) *jDiscRun {
 	for _, x := range run.Running {
 		h := hs[x]
 		stagger := time.Duration(r.intn(4)) * 500 * time.Microsecond
+		probe := 2 * time.Millisecond
+		if d, ok := probes[x]; ok {
+			probe = d
+		}
+		run.ProbeMs = append(run.ProbeMs, float64(probe)/float64(time.Millisecond))
 		go func() {
 			time.Sleep(stagger)
 			err := h.m.Synchronize(ctx, func(l []uint16) {
@@ -409,7 +450,7 @@ func runDiscWhole(r *prng, id int) *jDiscRun {
 					h.down = true
 				}
 				h.mu.Unlock()
-			}, topic, run.Expected, 2*time.Millisecond)
+			}, topic, run.Expected, probe)
 			h.mu.Lock()
 			h.ret = true
 			if run.Teardown {
@@ -497,7 +538,11 @@ func runDiscWholeBatch(r *prng, count int) {
 		sem <- struct{}{}
 		go func(i int) {
 			defer wg.Done()
-			out[i] = runDiscWhole(newPRNG(seeds[i]), i)
+			force := ""
+			if i < 4 { // the four probe-interval patterns are always present
+				force = []string{"fast-among-slow-100", "slow-among-fast-100", "fast-among-slow-10", "slow-among-fast-10"}[i]
+			}
+			out[i] = runDiscWhole(newPRNG(seeds[i]), i, force)
 			<-sem
 		}(i)
 	}
